@@ -4,7 +4,7 @@
    implementation (Model/Oracle2.v).  ./vp ties implementation = Step = SubjK on every history run. *)
 From Coq Require Import List ZArith Bool Arith.
 From RX Require Import Val Syntax Step Oracle Oracle2 SubjK.
-From RXP Require Import SubjKRef SubjKReplay.
+From RXP Require Import SubjKRef SubjKReplay SubjKBehavior.
 Import ListNotations.
 
 (* Plain Subject, EVERY call history (any number of observers, each subscribing once; any values; any
@@ -49,6 +49,22 @@ Check C10_replay_refines_reference :
   let r := fold_left (sref_step KReplay) script (sref0 None) in
   (forall k, sk_logs s k = r_logs r k) /\ map snd (sk_obs s) = r_reg r /\ sk_items s = r_items r /\ r_term r = stored_term s.
 Print Assumptions C10_replay_refines_reference.
+
+(* BehaviorSubject, every initial value, EVERY call history that does not use the subject after its own terminal: every
+   observer's log is exactly the reference machine's - the latest value (the initial one if nothing was pushed) or the
+   stored terminal first, then the live stream - and the inner Subject holds exactly the registered observers. *)
+Theorem C10_behavior_refines_reference :
+  forall init script, plain_history script = true -> NoDup (sub_handles script) -> emits_after_terminal false script = false ->
+  let s := sk_run KBehavior (Some init) script in
+  let r := fold_left (sref_step KBehavior) script (sref0 (Some init)) in
+  (forall k, sk_logs s k = r_logs r k) /\ map snd (sk_obs s) = r_reg r /\ r_term r = stored_term_b s.
+Proof. exact behavior_refines_reference. Qed.
+Check C10_behavior_refines_reference :
+  forall init script, plain_history script = true -> NoDup (sub_handles script) -> emits_after_terminal false script = false ->
+  let s := sk_run KBehavior (Some init) script in
+  let r := fold_left (sref_step KBehavior) script (sref0 (Some init)) in
+  (forall k, sk_logs s k = r_logs r k) /\ map snd (sk_obs s) = r_reg r /\ r_term r = stored_term_b s.
+Print Assumptions C10_behavior_refines_reference.
 
 (* BehaviorSubject: after ANY history without a terminal the cell handed to a new subscriber holds the
    latest value pushed (the initial one if none). *)
